@@ -65,6 +65,39 @@ fn termination_case(cfg: &Config, idx: u64, r: &mut Rng, st: &mut Stats) {
     }
 }
 
+/// termination of the real binary: `anthem simplify --strategy fixpoint` in a child process under
+/// a CPU-time limit (20 s, confirmed with 200 s). A rewrite that never returns cannot be counted
+/// from inside (the step counter sits between rewrite calls); the child process can be killed.
+fn cli_termination_case(cfg: &Config, tmp: &Path, idx: u64, r: &mut Rng, st: &mut Stats) {
+    use crate::monitors::c16::{Class, run_limited};
+    let inputs: Vec<(anthem::syntax_tree::fol::sigma_0::Formula, String)> = gen_input(r, cfg.pick(3, 4)).into_iter().take(3).collect();
+    let closed: Vec<String> = inputs.iter().filter(|(f, _)| f.free_variables().is_empty()).map(|(f, _)| format!("{f}.")).collect();
+    if closed.is_empty() {
+        return;
+    }
+    let d = tmp.join(format!("t{idx}"));
+    std::fs::create_dir_all(&d).unwrap();
+    std::fs::write(d.join("t.spec"), closed.join("\n")).unwrap();
+    for p in PORTFOLIOS {
+        let bin = if idx % 2 == 0 { cfg.anthem_release() } else { cfg.anthem_dev() };
+        let args: Vec<String> = vec!["simplify".into(), "--portfolio".into(), p.cli_name().into(), "--strategy".into(), "fixpoint".into(), "t.spec".into()];
+        st.inc("cli_fixpoint_runs");
+        match run_limited(&bin, &args, Some(&d), 20) {
+            Class::Hang => {
+                st.eval(None);
+                st.violation(
+                    "fixpoint-does-not-terminate",
+                    format!("`anthem simplify --portfolio {} --strategy fixpoint` exceeded the CPU-time limit on {}", p.cli_name(), closed.join(" ")),
+                    J::obj().set("portfolio", J::s(p.cli_name())).set("theory", J::s(closed.join("\n"))),
+                );
+            }
+            Class::Ok | Class::ReportedError => st.eval(Some(&format!("cli|{}|{}", p.cli_name(), closed.join(" ")))),
+            _ => st.inc("cli_fixpoint_runs_without_verdict"),
+        }
+    }
+    let _ = std::fs::remove_dir_all(&d);
+}
+
 fn hash_dir(d: &Path) -> Vec<(String, u64)> {
     let mut v = Vec::new();
     if let Ok(rd) = std::fs::read_dir(d) {
@@ -250,7 +283,11 @@ pub fn run(cfg: &Config) -> i32 {
     require_binaries(cfg);
     let tmp = scratch_dir(cfg, "c18");
     let budget = Duration::from_secs_f64(cfg.pick(30.0, 300.0) * cfg.scale);
-    let mut stats = parallel(cfg, "termination", cfg.scaled(cfg.pick(20_000, 3_000_000)), budget, |idx, r, st| termination_case(cfg, idx, r, st));
+    // the child-process stream comes first: if a rewrite never returns, the in-process stream
+    // below cannot finish either, and the watchdog then reports what this stream recorded
+    let mut stats = parallel(cfg, "termination-cli", cfg.scaled(cfg.pick(600, 100_000)), budget, |idx, r, st| cli_termination_case(cfg, &tmp, idx, r, st));
+    let s0 = parallel(cfg, "termination", cfg.scaled(cfg.pick(20_000, 3_000_000)), budget, |idx, r, st| termination_case(cfg, idx, r, st));
+    stats.merge(s0);
     let s2 = parallel(cfg, "determinism", cfg.scaled(cfg.pick(1200, 300_000)), budget, |idx, r, st| determinism_case(cfg, &tmp, idx, r, st));
     stats.merge(s2);
     let _ = std::fs::remove_dir_all(&tmp);
